@@ -198,6 +198,7 @@ def run(P, R, tier):
     savernull_rule(P, R)
     rangeorder_rule(P, R)
     wholeclear_rule(P, R)
+    modifydesc_rule(P, R)
 
 
 def writes_store(s):
@@ -944,3 +945,35 @@ def wholeclear_rule(P, R):
                             "message" % (g["q"], ms[0]), file=g["file"], line=c[1], function=g["q"])
     if n < 20:
         R.anchor_missing(RULE, "only %d whole-store clears found (the reset functions alone have 22)" % n)
+
+
+def modifydesc_rule(P, R):
+    """"*_MODIFY changes only the named quantities of the named entry": the read_raw functions take number AND description from the header
+    line of the block, so after read_raw the entry has the description of the MODIFY line - empty in the normal case.  Rxn_read_modify
+    (one instantiation per kind) must therefore keep the description the entry had before read_raw and put it back when the block gives
+    none: a local initialised from Get_description() before the read_raw call that reaches Set_description after it."""
+    RULE = "C14.modifydesc"
+    R.rule(RULE, "Rxn_read_modify<kind>: the description the entry had before read_raw is restored when the MODIFY block gives none", minimum=10)
+    n = 0
+    for k, g in sorted(P.functions.items(), key=lambda kv: kv[1]["q"]):
+        if not g.get("body") or not (g["q"].startswith("Utilities::Rxn_read_modify<") or g["q"].startswith("Utilities::SB_read_modify<")):
+            continue
+        n += 1
+        inst = g["q"].split("::")[-1]
+        reads = [c[1] for c in T.calls(g["body"]) if T.callee_name(c) == "read_raw"]
+        sets = [c for c in T.calls(g["body"]) if T.callee_name(c) == "Set_description"]
+        if not reads or not sets:
+            R.anchor_missing(RULE, "%s: read_raw / Set_description not found" % inst)
+            continue
+        last_read = max(reads)
+        saved = {d[0] for x in T.walk(g["body"]) if x[0] == "Decl" and x[1] < last_read for d in x[2]
+                 if d[2] is not None and any(T.callee_name(c) == "Get_description" for c in T.calls(d[2]))
+                 and not any(y[0] == "Ref" and y[3] == "nk" for y in T.walk(d[2]))}
+        ok = any(c[1] > last_read and any(y[0] == "Ref" and y[3] in saved for a in c[4] for y in T.walk(a)) for c in sets)
+        if ok:
+            R.ok(RULE, inst, "description saved before read_raw (%s) and restored" % ", ".join(sorted(saved)))
+        else:
+            R.violation(RULE, inst, "%s sets the description from the MODIFY line only (read_raw has already overwritten it): a block without description erases the "
+                        "description of the entry" % inst, file=g["file"], line=sets[-1][1], function=g["q"])
+    if n < 10:
+        R.anchor_missing(RULE, "only %d instantiations of Rxn_read_modify found" % n)
